@@ -208,6 +208,24 @@ def run_C19(ctx):
                                   % (name, ' '.join(args), len(over or ''), len(fresh), (over or '')[-60:]), dict(case, observed=(over or '')[-300:], expected=fresh[-300:]), interface='I9')
                 if preds.get(name) != 'new':
                     ctx.violation('no-failing-input-found', 'FsModel predicts %r for a successful generation' % preds.get(name), case, interface='I9')
+                # an edit that does not change the length of the output (one character of the epilogue), regenerated over the previous
+                # output: the file must be the new output (same size as the old one, different content)
+                if 'EPILOGUE-END-MARKER' in t:
+                    t2 = t.replace('EPILOGUE-END-MARKER', 'EPILOGUE-END-MARKEX')
+                    open(src, 'w').write(t2)
+                    out2 = os.path.join(work, 'good2' + ext)
+                    if os.path.exists(out2):
+                        os.remove(out2)
+                    r1 = subprocess.run([yaccgo] + args + [src, out2], capture_output=True, text=True, timeout=20)
+                    want2 = open(out2).read() if os.path.exists(out2) else None
+                    open(out, 'w').write(fresh)
+                    r2 = subprocess.run([yaccgo] + args + [src, out], capture_output=True, text=True, timeout=20)
+                    got2 = open(out).read() if os.path.exists(out) else None
+                    ctx.evaluations += 1
+                    if r1.returncode != 0 or r2.returncode != 0 or want2 is None or got2 != want2 or 'EPILOGUE-END-MARKEX' not in (got2 or ''):
+                        ctx.violation('counterexample', 'regeneration of %s (%s) after an edit that keeps the length of the output (exit %s): the file at the output path is %s'
+                                      % (name, ' '.join(args), r2.returncode, 'still the previous output' if got2 == fresh else 'not the output of the edited grammar'),
+                                      dict(case, grammar_text=t2, grammar_sha=vlib.sha(t2), observed=(got2 or '')[-200:], expected=(want2 or '')[-200:]), interface='I9')
         foreign = c19_foreign()
         for (name, text) in foreign:
             for (tn, args, ext) in TARGETS:
@@ -443,6 +461,19 @@ def c13_texts(ctx):
         texts.append(('tcr_stray%d' % k, small[:i] + b'\r' + small[i:]))
         j = crlf.find(b'\r', rnd.randrange(len(crlf) - 2))
         texts.append(('tcr_cut%d' % k, crlf[:j + 1]))
+    # chains of unit rules that close into a cycle, on nonterminals without a %type (and the same with one)
+    for k, (tagged, spec) in enumerate([(False, 'expr: term ; term: atom ; atom: expr | NUM'), (True, 'expr: term ; term: atom ; atom: expr | NUM'),
+                                        (False, 'a: b | x ; b: c ; c: d ; d: a'), (False, 'S: A | a ; A: S'), (False, 'S: S | a'),
+                                        (False, 'p: q r ; q: r | ; r: q | x')]):
+        g = gram.from_text(spec)
+        for nt in g['nonterms']:
+            nt['tag'] = 'v0' if tagged else ''
+        for t in g['terms']:
+            t['tag'] = ''
+        texts.append(('tcy_%d' % k, gram.render_plain(g, 'main').encode()))
+    for k in range(20 if ctx.quick else 200):
+        g = gram.random_grammar(rnd, nT=rnd.randint(1, 3), nN=rnd.randint(2, 5), p_term=0.25, max_len=1, want_tags=False)
+        texts.append(('tcy_r%d' % k, gram.render_plain(g, 'main').encode()))
     # a small well-formed grammar with an exponentially large LR(0) automaton (Ukkonen's family, about n*2^n states): the state
     # limit must stop the construction (names starting with big_ get a longer deadline: printing 2000 states takes seconds)
     n = 10
